@@ -12,6 +12,10 @@
 (*           counted by the endpoint; err;                                 *)
 (*           outs = output files after apply; atok = output files at the   *)
 (*           moment the endpoint answered 200                              *)
+(*   WChange / WSettle / WIdle  scenarios on the real Watch loop (fsnotify *)
+(*           events, ConfigMap-style symlink flips, watch and retry        *)
+(*           intervals): a change, the settled observation after it (or a  *)
+(*           deadline), the reload requests seen during an idle period     *)
 (* Judged with the property-level operators of Reloader.tla; the spec only *)
 (* carries the property's memory P (last successfully reloaded content,    *)
 (* pending failed reload) from apply to apply.  The eventual clause of the *)
@@ -41,7 +45,12 @@ Apply == /\ IsEvent("Apply")
                /\ P' = PNext(P, snap, e.env, e.err, e.calls, e.oks)
                /\ A' = ANext(A, snap, e.err, e.calls, e.oks)
 
-TraceNext == Header \/ Change \/ Apply
+(* phase 2: scenarios on the real Watch loop; WChange lines are informational *)
+WChange == IsEvent("WChange") /\ UNCHANGED <<P, A>>
+WSettle == IsEvent("WSettle") /\ CaseReject(l, Trace[l], SettleClauses(Trace[l])) /\ UNCHANGED <<P, A>>
+WIdle == IsEvent("WIdle") /\ CaseReject(l, Trace[l], IdleClauses(Trace[l])) /\ UNCHANGED <<P, A>>
+
+TraceNext == Header \/ Change \/ Apply \/ WChange \/ WSettle \/ WIdle
 TraceSpec == TraceInit /\ [][TraceNext]_tvars
 TraceAccepted == TLCGet("stats").diameter = TraceLen + 1
 =============================================================================
